@@ -351,6 +351,15 @@ def _c07_curves(h):
                 l, r = spec.de_casteljau_split(seg, Fraction(1, 2))
                 ins += [[tuple(p) for p in l], [tuple(p) for p in r]]
         out.append(("refined", ins))
+        ins3 = []
+        for seg in c:
+            if len(seg) == 2:
+                ins3.append(seg)
+            else:
+                l, r = spec.de_casteljau_split(seg, Fraction(1, 3))
+                ins3 += [[tuple(p) for p in l], [tuple(p) for p in r]]
+        if ins3 != list(c):
+            out.append(("split-at-third", ins3))
         return out
 
     all_objs = []
@@ -545,3 +554,41 @@ def _c20_mpl(h):
             now = [lib_curve(j) for j in S.jordans]
             h.ensure("plotting-does-not-modify-the-shape", now == before, detail=name)
         plt.close(fig)
+
+
+@bounded("C02.rc-after-transform", "C02", funcs=["shape.SimpleShape._contains_point", "jordancurve.JordanCurve.__float__", "jordancurve.IntegrateJordan.winding_number"], props=["C02", "C10"],
+         bound="grid-zoo shapes (all kinds) + two curved blobs: query, then one of 8 in-place transformations (incl. mirrors scale(-1,1), scale(2,-3), rotations, moves), query again; truth = region denoted by the *current* boundary (orientation read from the control points by the oracle)", timeout=600)
+def _c02_after(h):
+    rnd = random.Random(_seed() * 19 + 4)
+    cases = [(nm, lambda nm=nm: to_shape(zoo.region(nm, 0), "frac")) for nm in ("square2", "L", "ring", "two")]
+    cases += [("~L", lambda: to_shape(~zoo.region("L", 0), "frac")), ("blob2", lambda: mk_simple(zoo.blob2(1, 1, 2), "float")), ("mixed", lambda: mk_simple(zoo.mixed123(), "float"))]
+    maps = [("scale", (-1, 1)), ("scale", (2, -3)), ("scale", (-2, -1)), ("scale", (Fraction(1, 2), 3)), ("rotate", (90, True)), ("rotate", (1.0, False)), ("move", (3, -2)), ("scale", (1, -1))]
+    for nm, mk in cases:
+        for kind, args in maps:
+            S = mk()
+            probe0 = [(0.31, 0.27), (1.21, 0.77), (7.3, 7.9)]
+            before = [p in S for p in probe0]  # warms every cache
+            float(S), [float(j) for j in S.jordans]
+            getattr(S, kind)(*args)
+            d = desc_of(S)
+            box = bbox(d.curves())
+            pts = zoo.generic_points(rnd, box, 40)
+            h.case((nm, kind, args), True)
+            for p in pts:
+                t = d.contains(p)
+                if t is None or min(oracle.dist2_to_curve_lower_bound(c, p, 24) for c in d.curves()) < 1e-4:
+                    continue
+                lp = (float(p[0]), float(p[1]))
+                try:
+                    got = lp in S
+                except Exception as e:  # noqa: BLE001
+                    h.ensure("membership-after-transformation-does-not-raise", False, detail=f"{nm} {kind}{args}: {type(e).__name__}: {e}")
+                    break
+                if got != t and isinstance(S, SimpleShape) and any(sg.degree > 1 for sg in S.jordans[0].segments):
+                    from .RCcurved import chord_polygon
+
+                    c = Desc("simple", chord_polygon(lib_curve(S.jordans[0]))).contains(p)
+                    if c is not None and c == got:
+                        h.finding("chord-sampling-lune", f"{nm} after {kind}{args}: point {lp} truth {t}, library {got} = membership in the chord polygon")
+                        continue
+                h.ensure("membership-is-truth-for-the-current-boundary", got == t, detail=f"{nm} after {kind}{args}: point {lp} truth {t} (boundary orientation as it is now), library {got}")
